@@ -32,10 +32,34 @@ class EvalModel:
         self.exec = ex[0] if ex else None
         self.reach = prog.reach([self.exec.id]) if self.exec else set()
         self.bodies = []
+        self.root, self.node_param = self.exec, 1
         if not self.exec:
+            self.eval_ids = set()
             return
+        # `exec` may only wrap the evaluator proper (`Eval::new(ctx).eval(self)`): the recursive evaluator is then the
+        # private body it hands its node to, and the node is whichever parameter of that body receives it
+        for _ in range(2):
+            r = self.root
+            adt_switch = any(st['k'] == 'assign' and st['rv']['k'] == 'discr' and 'parser::ExprAST' in (st['rv']['pl'].get('ty') or '')
+                             for blk in r.blocks for st in blk['stmts'])
+            if adt_switch:
+                break
+            cands = []
+            for c in r.live_calls:
+                g = prog.by_id.get(c.ruid) if c.ruid else None
+                if g is None or g.id == r.id or g.is_closure:
+                    continue
+                for k, a in enumerate(c.args):
+                    o = single_origin(trace_operand(r, a, through_calls=THROUGH))
+                    if o is not None and o.kind == 'param' and o.data == self.node_param and not o.proj and k + 1 <= g.arg_count \
+                            and 'parser::ExprAST' in g.locals[k + 1]['ty'] and g.locals[0]['ty'] == r.locals[0]['ty']:
+                        cands.append((g, k + 1))
+            if len(cands) != 1:
+                break
+            self.root, self.node_param = cands[0]
+        self.eval_ids = {self.exec.id, self.root.id}
         if inlined:
-            rex = {self.exec.id}
+            rex = set(self.eval_ids)
             changed = True
             while changed:
                 changed = False
@@ -43,16 +67,16 @@ class EvalModel:
                     if bid not in rex and any(x in rex for x in succ):
                         rex.add(bid)
                         changed = True
-            helpers = {bid for bid in self.reach if bid in rex and bid != self.exec.id}
+            helpers = {bid for bid in self.reach if bid in rex and bid not in self.eval_ids}
             self.ctx_writers()
-            v = prog.view(self.exec, keep=lambda g: g.id not in helpers or g.id in self._cw, tag='eval')
+            v = prog.view(self.root, keep=lambda g: g.id not in helpers or g.id in self._cw, tag='eval')
             self.bodies = [v]
             # whatever was not opened into the view (closures handed to iterator adaptors, helpers beyond the
             # inlining bound) is still an evaluator body of its own
             opened = set(v.j.get('inlined') or []) if getattr(v, 'is_view', False) else set()
             for bid in sorted(self.reach):
                 b = prog.by_id[bid]
-                if b.id == self.exec.id or b.name in opened:
+                if b.id == self.root.id or b.name in opened:
                     continue
                 if self.child_sites(b) or self.handler_sites(b) or self.ctx_writes(b):
                     self.bodies.append(b)
@@ -64,7 +88,13 @@ class EvalModel:
 
     # --- site kinds
     def child_sites(self, body):
-        return [c for c in body.live_calls if c.ruid == self.exec.id]
+        return [c for c in body.live_calls if c.ruid in self.eval_ids and self.node_arg(c) is not None
+                and not (c.ruid == self.root.id and getattr(body, 'orig_id', body.id) == self.exec.id and self.root is not self.exec)]
+
+    def node_arg(self, c):
+        """the operand of an evaluation call that denotes the node to evaluate"""
+        k = 0 if c.ruid == self.exec.id else self.node_param - 1
+        return c.args[k] if k < len(c.args) else None
 
     def handler_sites(self, body):
         out = []
@@ -97,7 +127,7 @@ class EvalModel:
                 if bid not in sat and any(s in sat for s in succ):
                     sat.add(bid)
                     changed = True
-        rex = {self.exec.id}
+        rex = set(self.eval_ids)
         changed = True
         while changed:
             changed = False
@@ -143,7 +173,7 @@ class EvalModel:
         if depth > 6:
             return None
         if o.kind == 'param':
-            if getattr(body, 'orig_id', body.id) == self.exec.id and o.data == 1:
+            if getattr(body, 'orig_id', body.id) == self.root.id and o.data == self.node_param:
                 return self._field_path(o.proj)
             # map through every call site of this helper inside the evaluator
             provs = set()
@@ -218,7 +248,7 @@ class EvalModel:
         return _norm(p)
 
     def child_prov(self, c):
-        return self.prov_of_operand(c.body, c.args[0])
+        return self.prov_of_operand(c.body, self.node_arg(c))
 
 
 def _norm(p):
@@ -484,7 +514,7 @@ def rule_order(em):
                 if not cond or not all(body.dominates(cc[0].bb, c.bb) for cc in cond):
                     problems.append('the selected branch is not dominated by the evaluation of the condition')
                 else:
-                    defs = _selection_defs(em, body, c.args[0])
+                    defs = _selection_defs(em, body, em.node_arg(c))
                     if not defs[1] or not defs[2]:
                         problems.append('cannot find where the branch is selected')
                     else:
@@ -620,7 +650,7 @@ def _same_loop_item(pa, pb):
 
 
 def _next_call_of(em, body, c):
-    origins = trace_operand(body, c.args[0], through_calls=THROUGH)
+    origins = trace_operand(body, em.node_arg(c), through_calls=THROUGH)
     o = single_origin(origins)
     if o is not None and o.kind == 'callres' and FORWARD_NEXT_RE.match(o.data.rdef or ''):
         return o.data
@@ -672,7 +702,7 @@ def _dominated_by_bool_switch(em, body, cond_call, branch_call):
 def _arm_entry(em, body, variant):
     """entry block of the region that handles `variant`: in the dispatching body the target of
     the discriminant switch edge for that variant, elsewhere the body entry"""
-    if getattr(body, 'orig_id', body.id) != em.exec.id:
+    if getattr(body, 'orig_id', body.id) != em.root.id:
         return 0
     adt = em.prog.f.adt_by_name.get('parser::ExprAST')
     if not adt:
